@@ -186,6 +186,55 @@ class Check:
         json.dump(rep, open(path, 'w'), indent=1, default=str)
         return os.path.relpath(path, OUT), outcome
 
+    def conformance(self, counted):
+        """native replay of sampled inputs of DISCHARGED obligations (see pyvc/run.py: conformance_samples)"""
+        import random
+        from concurrent.futures import ThreadPoolExecutor
+        recs = [r for r in counted if r.get('conform_model') is not None and r['status'] == 'valid']
+        cap = int(os.environ.get('PYVC_CONFORM_CAP', '64' if self.tier == 'quick' else '600'))
+        random.Random(self.seed).shuffle(recs)
+        recs = recs[:cap]
+        d = os.path.join(OUT, 'replay', self.prop, 'conformance')
+        out = {'sampled': len(recs), 'agree': 0, 'not_comparable': 0, 'disagreements': [],
+               'what': 'for each sampled discharged obligation: a model of its hypothesis, decoded, run on the real code; the proved clause '
+                       'must hold natively'}
+        if not recs:
+            return out
+        os.makedirs(d, exist_ok=True)
+        env = dict(os.environ, PYTHONPATH=f'{REPO}:{ROOT}')
+
+        def one(kr):
+            k, r = kr
+            path = os.path.join(d, sanitize(r['id'].replace('/', '__')) + f'.{k}.json')
+            rep = {'property': self.prop, 'obligation': {k: r[k] for k in ('id', 'kind', 'meta', 'status', 'backend')},
+                   'contract': r.get('contract'), 'model': r['conform_model'], 'conformance': True}
+            json.dump(rep, open(path, 'w'), indent=1, default=str)
+            try:
+                p = subprocess.run([NATIVE_PY, os.path.join(ROOT, 'tools', 'replay.py'), path], capture_output=True, text=True,
+                                   timeout=120, env=env)
+                line = [l for l in p.stdout.splitlines() if l.startswith('{')]
+                o = json.loads(line[-1]) if line else {'confirmed': None, 'detail': 'no output'}
+            except Exception as e:   # noqa
+                o = {'confirmed': None, 'detail': f'replay failed: {e!r}'}
+            return r, path, o
+        with ThreadPoolExecutor(max(2, self.jobs // 2)) as ex:
+            outs = list(ex.map(one, enumerate(recs)))
+        for r, path, o in outs:
+            det = str(o.get('detail', ''))
+            # disagreement: the proved clause is false natively, or the native run leaves the path the model is on
+            bad = o.get('confirmed') is True or det.startswith('operation raised') or (det.startswith('the call of') and 'was not reached' in det)
+            if bad and r['conform_model'].get('abstract_callees'):
+                bad, o = False, {'confirmed': None}      # abstract callees take other values natively: not comparable
+            if o.get('confirmed') is None:
+                out['not_comparable'] += 1
+                os.unlink(path)
+            elif bad:
+                out['disagreements'].append(f"{r['id']}: {det[:300]} (input: {os.path.relpath(path, OUT)})")
+            else:
+                out['agree'] += 1
+                os.unlink(path)
+        return out
+
     # ----------------------------------------------------------------------------------------------------
     def finish(self, checker_cmd, explanation='', functions=None, standin=None, exhaustive=None):
         findings = self.known_findings()
@@ -250,6 +299,10 @@ class Check:
                 if not names or not names <= explained_guard:
                     checker_errors.append(f'run-time guard failed (no refuted obligation explains it: the component is too strong, or the '
                                           f'repository is defective): {r["id"]}: {str(r.get("detail", ""))[:1500]}')
+        conf = self.conformance(counted)
+        for d in conf['disagreements']:
+            checker_errors.append('conformance: the real code contradicts a DISCHARGED obligation on a sampled input (the encoding or the '
+                                  f'decoding is wrong): {d}')
         seen_known = set()
         for r, f in known:
             if f['what'] not in seen_known:
@@ -298,6 +351,7 @@ class Check:
             'undecided': [r['id'] for r in undecided],
             'obligations_reassigned_to_other_properties': len(others),
             'samples': samples,
+            'conformance_sampling': {k: v for k, v in conf.items() if k != 'disagreements'} | {'disagreements': conf['disagreements'][:10]},
             'tasks': self.task_reports[:200],
             'explanation': explanation,
         }
